@@ -235,7 +235,13 @@ class SymEval(object):
           r = self.ev(n.right, env, fn)
           args = r[1:] if r[0] == 'tuple' else (r,)
           return ('fmt', l[1]) + tuple(args)
-      return ('binop', type(n.op).__name__, self.ev(n.left, env, fn), self.ev(n.right, env, fn))
+      l_, r_ = self.ev(n.left, env, fn), self.ev(n.right, env, fn)
+      if isinstance(n.op, ast.Add):
+        if r_ == ('const', ''):
+          return l_              # text + '' (an empty configured suffix)
+        if l_ == ('const', ''):
+          return r_
+      return ('binop', type(n.op).__name__, l_, r_)
     if isinstance(n, ast.JoinedStr):
       tpl, args = '', []
       for v in n.values:
